@@ -8,6 +8,7 @@ import (
 	"bytes"
 	"crypto/aes"
 	"crypto/cipher"
+	"crypto/sha256"
 	"encoding/hex"
 	"encoding/json"
 	"errors"
@@ -20,6 +21,7 @@ import (
 	btcec "github.com/btcsuite/btcd/btcec/v2"
 	becdsa "github.com/btcsuite/btcd/btcec/v2/ecdsa"
 	"github.com/pelletier/go-toml"
+	"golang.org/x/crypto/pbkdf2"
 	"golang.org/x/crypto/scrypt"
 	"golang.org/x/crypto/sha3"
 	"gopkg.in/yaml.v2"
@@ -71,9 +73,11 @@ type v3File struct {
 		KDF       string `json:"kdf"`
 		KDFParams struct {
 			DKLen int    `json:"dklen"`
-			N     int    `json:"n"`
-			P     int    `json:"p"`
-			R     int    `json:"r"`
+			N     int    `json:"n,omitempty"`
+			P     int    `json:"p,omitempty"`
+			R     int    `json:"r,omitempty"`
+			C     int    `json:"c,omitempty"`
+			PRF   string `json:"prf,omitempty"`
 			Salt  string `json:"salt"`
 		} `json:"kdfparams"`
 		MAC string `json:"mac"`
@@ -90,11 +94,35 @@ func aesCTR(key, iv, in []byte) []byte {
 	return out
 }
 
+// key-file variants of the writer (round 3): the other KDF of the V3 definition and files that are
+// complete except for one field the reader has to refuse
+const (
+	kfScrypt     = 0
+	kfPbkdf2     = 1
+	kfVersion4   = 2 // "version": 4
+	kfNoID       = 3 // no "id"
+	kfUnknownKDF = 4 // "kdf": "argon2id"
+	kfBadPRF     = 5 // pbkdf2 with "prf": "hmac-sha512"
+	kfZeroC      = 6 // pbkdf2 with "c": 0
+	kfDKLen16    = 7 // scrypt with "dklen": 16
+)
+
 // v3Write encrypts priv under password with scrypt N=2, r=1, p=1 (tiny cost: the runs stay fast).
 func v3Write(r *cv.Rand, priv []byte, password []byte, claimedAddr []byte) []byte {
+	return v3WriteVariant(r, priv, password, claimedAddr, kfScrypt)
+}
+
+func v3WriteVariant(r *cv.Rand, priv []byte, password []byte, claimedAddr []byte, variant int) []byte {
 	salt := r.Bytes(32)
 	iv := r.Bytes(16)
-	dk, err := scrypt.Key(password, salt, 2, 1, 1, 32)
+	var dk []byte
+	var err error
+	usePbkdf2 := variant == kfPbkdf2 || variant == kfBadPRF || variant == kfZeroC
+	if usePbkdf2 {
+		dk = pbkdf2.Key(password, salt, 3, 32, sha256.New)
+	} else {
+		dk, err = scrypt.Key(password, salt, 2, 1, 1, 32)
+	}
 	if err != nil {
 		panic(err)
 	}
@@ -109,20 +137,52 @@ func v3Write(r *cv.Rand, priv []byte, password []byte, claimedAddr []byte) []byt
 	f.Crypto.Cipher = "aes-128-ctr"
 	f.Crypto.CipherText = hex.EncodeToString(ct)
 	f.Crypto.CipherParams.IV = hex.EncodeToString(iv)
-	f.Crypto.KDF = "scrypt"
 	f.Crypto.KDFParams.DKLen = 32
-	f.Crypto.KDFParams.N = 2
-	f.Crypto.KDFParams.P = 1
-	f.Crypto.KDFParams.R = 1
+	if usePbkdf2 {
+		f.Crypto.KDF = "pbkdf2"
+		f.Crypto.KDFParams.C = 3
+		f.Crypto.KDFParams.PRF = "hmac-sha256"
+	} else {
+		f.Crypto.KDF = "scrypt"
+		f.Crypto.KDFParams.N = 2
+		f.Crypto.KDFParams.P = 1
+		f.Crypto.KDFParams.R = 1
+	}
 	f.Crypto.KDFParams.Salt = hex.EncodeToString(salt)
 	f.Crypto.MAC = hex.EncodeToString(keccak(dk[16:32], ct))
+	switch variant {
+	case kfVersion4:
+		f.Version = 4
+	case kfNoID:
+		f.ID = ""
+	case kfUnknownKDF:
+		f.Crypto.KDF = "argon2id"
+	case kfBadPRF:
+		f.Crypto.KDFParams.PRF = "hmac-sha512"
+	case kfZeroC:
+		f.Crypto.KDFParams.C = 0
+	case kfDKLen16:
+		f.Crypto.KDFParams.DKLen = 16
+	}
 	b, _ := json.Marshal(&f)
+	if variant == kfNoID {
+		b = bytes.Replace(b, []byte(`"id":"",`), nil, 1)
+	}
+	// entries that are not part of the V3 definition (tools add names, paths, timestamps): ignored by a reader
+	switch r.Intn(6) {
+	case 0:
+		b = append([]byte(`{"name":"key of the month","meta":{"created":"2024-05-01","n":1},`), b[1:]...)
+	case 1:
+		b = append(b[:len(b)-1], []byte(`,"x-label":null,"hd-path":"m/44'/60'/0'/0/0","tags":["a","b"]}`)...)
+	}
 	return b
 }
 
 type v3Parsed struct {
 	salt, iv, ct, mac []byte
 	n, r, p           int
+	pbkdf2            bool
+	c                 int
 }
 
 // v3Parse returns nil when the content is not a scrypt V3 key file at all (no password opens it).
@@ -131,10 +191,13 @@ func v3Parse(content []byte) *v3Parsed {
 	if err := json.Unmarshal(content, &f); err != nil {
 		return nil
 	}
-	if f.Version != 3 || f.ID == "" || f.Crypto.KDF != "scrypt" || f.Crypto.Cipher != "aes-128-ctr" || f.Crypto.KDFParams.DKLen != 32 {
+	if f.Version != 3 || f.ID == "" || (f.Crypto.KDF != "scrypt" && f.Crypto.KDF != "pbkdf2") || f.Crypto.Cipher != "aes-128-ctr" || f.Crypto.KDFParams.DKLen != 32 {
 		return nil
 	}
-	k := &v3Parsed{n: f.Crypto.KDFParams.N, r: f.Crypto.KDFParams.R, p: f.Crypto.KDFParams.P}
+	k := &v3Parsed{n: f.Crypto.KDFParams.N, r: f.Crypto.KDFParams.R, p: f.Crypto.KDFParams.P, pbkdf2: f.Crypto.KDF == "pbkdf2", c: f.Crypto.KDFParams.C}
+	if k.pbkdf2 && (f.Crypto.KDFParams.PRF != "hmac-sha256" || k.c <= 0 || k.c > 1<<16) {
+		return nil
+	}
 	var err error
 	if k.salt, err = hex.DecodeString(f.Crypto.KDFParams.Salt); err != nil {
 		return nil
@@ -148,7 +211,7 @@ func v3Parse(content []byte) *v3Parsed {
 	if k.mac, err = hex.DecodeString(f.Crypto.MAC); err != nil {
 		return nil
 	}
-	if k.r <= 0 || k.p <= 0 || k.n <= 1 || k.n&(k.n-1) != 0 || k.n > 1<<14 {
+	if !k.pbkdf2 && (k.r <= 0 || k.p <= 0 || k.n <= 1 || k.n&(k.n-1) != 0 || k.n > 1<<14) {
 		return nil
 	}
 	return k
@@ -157,7 +220,13 @@ func v3Parse(content []byte) *v3Parsed {
 // open: the V3 definition — dk = scrypt(password), accept iff keccak(dk[16:32] || ct) = mac,
 // key = AES-128-CTR(dk[0:16], iv, ct); returns the address of the key.
 func (k *v3Parsed) open(password []byte) ([]byte, bool) {
-	dk, err := scrypt.Key(password, k.salt, k.n, k.r, k.p, 32)
+	var dk []byte
+	var err error
+	if k.pbkdf2 {
+		dk = pbkdf2.Key(password, k.salt, k.c, 32, sha256.New)
+	} else {
+		dk, err = scrypt.Key(password, k.salt, k.n, k.r, k.p, 32)
+	}
 	if err != nil {
 		return nil, false
 	}
@@ -342,6 +411,9 @@ func recoverTx(raw []byte, chainID int64) ([]byte, error) {
 		if len(items) != 12 {
 			return nil, fmt.Errorf("EIP-1559 transaction with %d fields", len(items))
 		}
+		if new(big.Int).SetBytes(rlpStr(items[0])).Cmp(big.NewInt(chainID)) != 0 {
+			return nil, fmt.Errorf("EIP-1559 transaction signed for chain %x, not %d", rlpStr(items[0]), chainID)
+		}
 		digest := keccak([]byte{0x02}, rlpList(items[:9]...))
 		v := new(big.Int).SetBytes(rlpStr(items[9]))
 		if !v.IsInt64() || v.Int64() > 1 {
@@ -360,7 +432,8 @@ func recoverTx(raw []byte, chainID int64) ([]byte, error) {
 	six = append(six, rlpEncStr(big.NewInt(chainID).Bytes()), []byte{0x80}, []byte{0x80})
 	digest := keccak(rlpList(six...))
 	v := new(big.Int).SetBytes(rlpStr(items[6]))
-	par := new(big.Int).Sub(v, big.NewInt(35+2*chainID))
+	base := new(big.Int).Add(new(big.Int).Lsh(big.NewInt(chainID), 1), big.NewInt(35))
+	par := new(big.Int).Sub(v, base)
 	if !par.IsInt64() || par.Int64() < 0 || par.Int64() > 1 {
 		return nil, fmt.Errorf("V=%s is not EIP-155 for chain %d", v, chainID)
 	}
